@@ -226,6 +226,7 @@ class Explorer:
             t = time.time()
             r = self.check(z3.Not(p))
             dt = time.time() - t
+            m = self.solver.model() if r == z3.sat else None
             if len(self.kept_queries) < self.keep_queries or dt > 5.0:
                 try:
                     self.solver.push()
@@ -236,7 +237,6 @@ class Explorer:
                     pass
             if r == z3.sat:
                 self.stats.final_sat += 1
-                m = self.solver.model()
                 d = self.describe(m) if self.describe else {'model': str(m)}
                 if isinstance(d, dict):
                     d.setdefault('assertion', name)
